@@ -128,6 +128,34 @@ pub fn wide(ctx: &Ctx) {
     }
 }
 
+/// a record without bits (minimum = maximum) at every position of the prototype, in front of,
+/// between and behind records that have bits; Integer and ScaledInteger; one or two of them
+pub fn zero_width_positions(ctx: &Ctx) {
+    let (sc, _) = zero_width_scene(ctx);
+    if let Some((enc, exp)) = model_file(ctx, &sc, Knobs { packets: true, max_packets: 2, ..Knobs::NONE }) {
+        judge(ctx, 106, &enc, &exp);
+        ctx.nontrivial();
+    }
+}
+
+pub fn zero_width_scene(ctx: &Ctx) -> (m::Scene, Vec<m::Rec>) {
+    let pos = ctx.pick("position-of-the-record-without-bits", 4);
+    let second = ctx.pick("second-record-without-bits", 5); // 0 none, 1..4 = at that position as well
+    let scaled = ctx.pick("scaled", 2) == 1;
+    let n = [0usize, 1, 5, 40][ctx.pick("points", 4)];
+    let zero = |k: i64| if scaled { m::Ty::Scaled { min: k, max: k, scale: 0.5, offset: 1.0 } } else { m::Ty::Int { min: k, max: k } };
+    let mut proto = vec![crate::cat::rec("cartesianX", crate::cat::F32), crate::cat::rec("cartesianY", m::Ty::Int { min: -3, max: 4 }), crate::cat::rec("cartesianZ", crate::cat::F64)];
+    proto.insert(pos.min(proto.len()), crate::cat::rec("intensity", zero(7)));
+    if second > 0 {
+        proto.insert((second - 1).min(proto.len()), crate::cat::rec("rowIndex", m::Ty::Int { min: -2, max: -2 }));
+    }
+    let points = crate::cat::points_for(&proto, n, 9);
+    let mut sc = scene(0);
+    sc.clouds.clear();
+    sc.clouds.push(m::Cloud { meta: m::CloudMeta { guid: Some("c".into()), ..Default::default() }, proto: proto.clone(), points, records: n as u64, file_offset: 0 });
+    (sc, proto)
+}
+
 /// the largest legal data packet: one 8-bit record, first packet of 65524 / 65528 stream bytes
 /// (packet length 65532 / 65536 = the maximum the 16-bit length field can express)
 pub fn maxpacket(ctx: &Ctx) {
